@@ -14,10 +14,11 @@ from ..ops import Hist
 
 F, G = "f.txt", "g.txt"
 
-OPS_WITH_UPSTREAM = ["rebase-plain", "rebase-onto", "rebase-i-reorder", "rebase-i-squash", "rebase-i-fixup", "rebase-i-reword", "rebase-i-drop-other",
+OPS_WITH_UPSTREAM = ["switch-m-back", "switch-m-behind", "rebase-plain", "rebase-onto", "rebase-i-reorder", "rebase-i-squash", "rebase-i-fixup", "rebase-i-reword", "rebase-i-drop-other",
                      "cherry-one", "cherry-range", "squash-merge", "merge-noff", "stash-pop", "stash-apply", "switch-m", "pull-rebase-autostash",
                      "ci-squash", "ci-rebase", "squash-authorship"]
-OPS_NO_UPSTREAM = ["amend-agent", "amend-message", "reset-soft", "reset-mixed", "reset-soft-2", "switch-carry", "checkout-b-carry", "stash-pop-same", "commit-dry-run", "rebase-abort"]
+OPS_NO_UPSTREAM = ["amend-agent", "amend-message", "reset-soft", "reset-mixed", "reset-soft-2", "switch-carry", "checkout-b-carry", "stash-pop-same", "commit-dry-run", "rebase-abort",
+                   "stash-pop-refused", "stash-pop-after-partial"]
 UPSTREAM = ["none", "other", "above", "below", "both"]
 POSITIONS = ["top", "middle", "bottom", "last"]
 
@@ -163,6 +164,53 @@ def run_cell(case):
             ai1()
             p = s.g("switch", "-q", "-m", "other")
             if s.unmerged() or p.rc != 0:
+                applicable = False
+                s.g("reset", "-q", "--hard")
+        elif op == "switch-m-behind":
+            # the branch switched to is BEHIND: it lacks the last commit (which changed f above / below / elsewhere)
+            s.g("branch", "other")
+            upstream_edit(s, u)
+            ai1()
+            p = s.g("switch", "-q", "-m", "other")
+            if s.unmerged() or p.rc != 0:
+                applicable = False
+                s.g("reset", "-q", "--hard")
+        elif op == "switch-m-back":
+            # `switch -m` to a branch at another commit, commit there, then come back with a plain switch carrying new agent work
+            s.g("checkout", "-q", "-b", "other")
+            upstream_edit(s, u if u != "none" else "other")
+            s.g("checkout", "-q", "main")
+            ai1()
+            p = s.g("switch", "-q", "-m", "other")
+            if s.unmerged() or p.rc != 0:
+                applicable = False
+                s.g("reset", "-q", "--hard")
+            else:
+                s.commit_all("agent lines committed on the other branch")
+                s.check_blame_tip("matrix-other " + cell, rule="C02")
+                ai2()
+                s.g("switch", "-q", "main")
+        elif op == "stash-pop-refused":
+            ai1()
+            s.g("stash", "push", "-q")
+            upstream_edit(s, "other")
+            s.human_write(F, insert_at(s.read(F), pos, [s.line("human"), s.line("human")]), ckpt=True)
+            before = s.pending_digest()
+            p = s.g("stash", "pop", "-q")
+            if p.rc == 0:
+                applicable = False
+            else:
+                if s.pending_digest() != before:
+                    s.violation("C02/pending-changed-by-noop", op="stash pop refused (local changes would be overwritten)", pending=s.pending_effective())
+                s.g("stash", "drop", "-q")
+        elif op == "stash-pop-after-partial":
+            ai1()
+            s.g("stash", "push", "-q")
+            ai2()
+            s.ai_write("S2", "h.txt", [s.line("S2"), s.line("S2")])
+            s.g("add", "--", G); s.g("commit", "-q", "-m", "only g: the agent's new file stays uncommitted")
+            s.g("stash", "pop", "-q")
+            if s.unmerged():
                 applicable = False
                 s.g("reset", "-q", "--hard")
         elif op == "pull-rebase-autostash":
